@@ -389,17 +389,60 @@ package mint
 //@   rgensures @steps [C01,C03] true
 //@   tags C09 C07
 //@   safety C06 C09
-//@   requires minv(m)
+// (RotateKeyset runs inside LoadMint before the Lightning client is set: it needs the store, the maps and the logger only)
+//@   requires m.db != nil && m.activeKeyset != nil && m.keysets != nil && m.logger != nil
 // a fee the store can represent (see storage.MintDB.SaveKeyset)
 //@   requires fee < 9223372036854775808
 //@   requires kinv(m)
 //@   requires db.ks[m.activeKeyset.Id] && db.ksrow[m.activeKeyset.Id].Active
 //@   boundary @activerow [C07,C09] exists id Str :: db.ks[id] && db.ksrow[id].Active
 //@   calls (storage.MintDB).UpdateKeysetActive asserts @deactivateold [C09,C07] keysetId == old(m.activeKeyset.Id) && !active
-//@   calls (storage.MintDB).SaveKeyset asserts @newrow [C09,C07] ks.Active && ks.InputFeePpk == fee && ks.DerivationPathIdx == (old(m.activeKeyset.DerivationPathIdx) + 1) % 4294967296 && ks.Id == m.activeKeyset.Id && ks.Unit == "sat" && ks.Seed == hexenc(db.seed)
+//@   calls (storage.MintDB).SaveKeyset asserts @newrow [C09,C07] ks.Active && ks.InputFeePpk == fee && ks.DerivationPathIdx == (old(m.activeKeyset.DerivationPathIdx) + 1) % 4294967296 && ks.Id == m.activeKeyset.Id && ks.Unit == "sat" && ks.Seed == hexenc(db.seed) && ks.Id == hd.ksid(hd.master(db.seed), ks.DerivationPathIdx)
 //@   ensures @kinv [C09] err == nil && !(old(m.keysets[m.activeKeyset.Id].Id) == m.activeKeyset.Id) ==> kinv(m)
 //@   ensures @newactive [C09] err == nil ==> m.activeKeyset.InputFeePpk == fee && m.activeKeyset.DerivationPathIdx == (old(m.activeKeyset.DerivationPathIdx) + 1) % 4294967296 && r0 != nil && r0.Id == m.activeKeyset.Id && r0.InputFeePpk == fee && r0.Active
+//@   ensures @frame [C09] m.db == old(m.db) && m.logger == old(m.logger) && m.lightningClient == old(m.lightningClient) && m.keysets == old(m.keysets) && (err == nil ==> m.activeKeyset != nil)
 //@   ensures @oldkept [C09] forall id Str :: old(id in m.keysets) && id != m.activeKeyset.Id ==> (id in m.keysets) && m.keysets[id].Keys == old(m.keysets[id].Keys) && m.keysets[id].InputFeePpk == old(m.keysets[id].InputFeePpk) && m.keysets[id].Id == old(m.keysets[id].Id)
+
+//@ func setupLogger
+//@   tags C09
+//@   ensures @nonnil [C09] r1 == nil ==> r0 != nil
+
+// the advertised info is the only field SetMintInfo writes
+//@ func (*Mint).SetMintInfo
+//@   tags C09
+//@   ensures @frame [C09] m.activeKeyset == old(m.activeKeyset) && m.keysets == old(m.keysets) && m.db == old(m.db) && m.lightningClient == old(m.lightningClient) && m.logger == old(m.logger) && m.limits == old(m.limits)
+
+// Representation invariant of the stored keysets (what LoadMint may rely on at start, and re-establishes): every row is
+// keyed by its own id, the id is the one generated from (stored seed, row index), fees are representable, exactly one
+// row is active when there are rows at all.
+//@ macro dbkinv() = (forall id Str :: db.ks[id] ==> db.ksrow[id].Id == id && id == hd.ksid(hd.master(db.seed), db.ksrow[id].DerivationPathIdx) && db.ksrow[id].InputFeePpk < 9223372036854775808 && db.seedset && (db.ksrow[id].Active ==> id == ks.active(db.ks, db.ksrow))) && ((forall id Str :: !db.ks[id]) || (db.ks[ks.active(db.ks, db.ksrow)] && db.ksrow[ks.active(db.ks, db.ksrow)].Active))
+
+// Restart (C09, C07): every stored keyset row is regenerated from the STORED seed with the row's own
+// derivation index, fee and active flag (GenerateKeyset is a function of exactly these, crypto contracts);
+// a first start generates index 0 with the configured fee and stores exactly that row as the active one;
+// the loaded mint has exactly one active keyset, the one of the active row, and every stored keyset under its own id.
+//@ func LoadMint
+//@   tags C09 C07
+//@   safety C06 C09
+//@   requires @store [C09] dbkinv()
+//@   requires @fee [C09] config.InputFeePpk < 9223372036854775808
+//@   calls crypto.GenerateKeyset asserts @fromseed [C09,C07] master == hd.master(db.seed) && db.seedset
+//@   calls crypto.GenerateKeyset asserts @fromrow [C09,C07] len(dbKeysets) != 0 ==> index == dbkeyset.DerivationPathIdx && inputFeePpk == dbkeyset.InputFeePpk && active == dbkeyset.Active && db.ks[dbkeyset.Id] && dbkeyset == db.ksrow[dbkeyset.Id]
+//@   calls crypto.GenerateKeyset asserts @first [C09,C07] len(dbKeysets) == 0 ==> index == 0 && inputFeePpk == config.InputFeePpk && active && (forall id Str :: !db.ks[id])
+//@   calls (storage.MintDB).SaveKeyset asserts @firstrow [C09,C07] (forall id Str :: !db.ks[id]) && ks.Active && ks.DerivationPathIdx == 0 && ks.InputFeePpk == config.InputFeePpk && ks.Unit == "sat" && ks.Seed == hexenc(db.seed) && ks.Id == hd.ksid(hd.master(db.seed), 0)
+//@   ensures @loaded [C09] err == nil ==> result != nil && result.activeKeyset != nil && result.keysets != nil && result.db != nil && result.lightningClient != nil && result.logger != nil
+// (with config.RotateKeyset the invariant is RotateKeyset's own postcondition, conditional on the new id being new)
+//@   ensures @kinv [C09] err == nil && !config.RotateKeyset ==> kinv(result)
+// the store invariant is re-established (first start: one row, active, index 0; later starts: rows untouched)
+//@   ensures @store [C09,C07] err == nil && !config.RotateKeyset ==> dbkinv()
+//@   ensures @allrows [C09] err == nil && !config.RotateKeyset ==> (forall id Str :: db.ks[id] ==> (id in result.keysets) && result.keysets[id].InputFeePpk == db.ksrow[id].InputFeePpk && result.keysets[id].DerivationPathIdx == db.ksrow[id].DerivationPathIdx && result.keysets[id].Active == db.ksrow[id].Active)
+//@   loop range(dbKeysets) invariant 0 <= i && i <= len(dbKeysets) && master == hd.master(db.seed) && db.seedset && mint.keysets != nil && db.ks == old(db.ks) && db.ksrow == old(db.ksrow) && mint.db != nil && mint.logger != nil
+//@   loop range(dbKeysets) invariant (forall j :: 0 <= j && j < len(dbKeysets) ==> db.ks[dbKeysets[j].Id] && dbKeysets[j] == db.ksrow[dbKeysets[j].Id]) && (len(dbKeysets) != 0 ==> db.ks[dbKeysets[0].Id])
+//@   loop range(dbKeysets) invariant (forall a, b :: 0 <= a && a < b && b < len(dbKeysets) ==> dbKeysets[a].Id != dbKeysets[b].Id)
+//@   loop range(dbKeysets) invariant (forall id Str :: db.ks[id] ==> (exists j :: 0 <= j && j < len(dbKeysets) && dbKeysets[j].Id == id))
+//@   loop range(dbKeysets) invariant (forall j :: 0 <= j && j < i ==> (dbKeysets[j].Id in mint.keysets) && mint.keysets[dbKeysets[j].Id].Id == dbKeysets[j].Id && mint.keysets[dbKeysets[j].Id].Active == dbKeysets[j].Active && mint.keysets[dbKeysets[j].Id].InputFeePpk == dbKeysets[j].InputFeePpk && mint.keysets[dbKeysets[j].Id].DerivationPathIdx == dbKeysets[j].DerivationPathIdx)
+//@   loop range(dbKeysets) invariant (forall id Str :: (id in mint.keysets) ==> mint.keysets[id].Id == id && db.ks[id] && mint.keysets[id].Active == db.ksrow[id].Active)
+//@   loop range(dbKeysets) invariant (forall j :: 0 <= j && j < i && dbKeysets[j].Active ==> mint.activeKeyset != nil && mint.activeKeyset.Active && mint.activeKeyset.Id == dbKeysets[j].Id && mint.keysets[mint.activeKeyset.Id].Keys == mint.activeKeyset.Keys && mint.keysets[mint.activeKeyset.Id].InputFeePpk == mint.activeKeyset.InputFeePpk)
 
 // ---- HTTP surface (C20). One handler call = one exchange: http.status/http.body
 // are the ghost status line and body of the ResponseWriter (net/http answers
